@@ -827,6 +827,23 @@ pub fn gen_c20(rng: &mut Rng, tier: Tier) -> Value {
         }
         keys.push(json!({"kind": kind, "name": name, "labels": lj}));
     }
+    // one plan in five: a gauge or histogram shares its *name* with a counter, under a label set of its own (one name,
+    // metrics of different kinds: each (name, labels) pair is still a metric of its own). Peeked: no draw moves.
+    {
+        let peek = rng.clone().next_u64();
+        if peek % 5 == 0 {
+            let counter_name = keys.iter().find(|k| js(k, "kind", "") == "c" && js(k, "name", "").len() < 100).map(|k| js(k, "name", "").to_string());
+            if let Some(cn) = counter_name {
+                let used: Vec<String> = keys.iter().filter(|k| js(k, "name", "") == cn).map(|k| k["labels"].to_string()).collect();
+                if let Some(k) = keys.iter_mut().find(|k| js(k, "kind", "") != "c" && !used.contains(&k["labels"].to_string())) {
+                    // (only a name that no other key of its own kind shares, so that nothing else moves with it)
+                    k["name"] = json!(cn);
+                    k["shares_name_with_counter"] = json!(true);
+                }
+                names.retain(|n| keys.iter().any(|k| js(k, "name", "") == n));
+            }
+        }
+    }
     let nthreads = 1 + rng.below(if tier == Tier::Thorough { 4 } else { 3 });
     // describe placement per name
     let mut units = serde_json::Map::new();
